@@ -4,7 +4,8 @@ CONSTANTS
   MaxEvents = 6
   MaxDepth = 3
   Ordered = TRUE
+  Exits = FALSE
 VIEW GView
-INVARIANTS TypeOK RecNested Bounded
-PROPERTIES GSaveAgrees GRecordAgrees
+INVARIANTS TypeOK RecNested Bounded PrecOK
+PROPERTIES GSaveAgrees GLifeAgrees GRecordAgrees
 CHECK_DEADLOCK FALSE
